@@ -316,6 +316,12 @@ class ReaderContract:
     # ---- use at a call site
     def apply(self, interp, args, kwargs):
         (src,) = _bind(args, kwargs, ("buffer",))[:1]
+        if self.desc == ("uv",) and (len(args) > 1 or "_max_bytes" in kwargs):
+            mb = args[1] if len(args) > 1 else kwargs["_max_bytes"]
+            if isinstance(mb, Sym):
+                raise Undecided("symbolic _max_bytes")
+            c = ReaderContract(self.name, self.desc, self.general_errors, maxbytes=mb)
+            return c.read(interp, src)
         return self.read(interp, src)
 
     def read(self, interp, src):
@@ -337,6 +343,13 @@ class ReaderContract:
                 raise Undecided(f"{self.name}: empty structured source")
             if isinstance(head, Raw) and len(src.segs) == 1 and getattr(src, "general", False):
                 return self.general(interp, src)
+            if isinstance(head, Lit):
+                # concrete bytes: recognise the canonical encoding they start with
+                dd = nullable_sibling(self.desc) or self.desc
+                r = kafka.parse_concrete(dd, head.b)
+                if r is not None and kafka.concrete(dd, r[0]) == head.b[:r[1]]:
+                    src.segs[0:1] = [Enc(dd, r[0])] + ([Lit(head.b[r[1]:])] if head.b[r[1]:] else [])
+                    continue
             if not isinstance(head, Enc):
                 if getattr(src, "general", False):
                     return self.general(interp, src)
@@ -370,6 +383,8 @@ class ReaderContract:
 
     def consume(self, interp, src):
         """consume the head segment; on a truncated stream fork into available / underflow"""
+        if isinstance(src, Source):
+            src.nreads += 1
         from kio.serial.errors import BufferUnderflow
         ctx = interp.ctx
         head = src.head()
